@@ -303,3 +303,34 @@ def parse_config_sweep(viol):
     cfg, err = run({})
     expect({}, cfg, {}, err)
     return n
+
+
+def fence_opener_sweep(viol):
+    """the fence test of preprocess_tag_block_spacing (the regex literal handed to re.match in its body, read from the live
+    source) against CommonMark's rule 'at most three spaces of indentation, then a run of >= 3 backticks or tildes' on every
+    line of <= 7 symbols over {space, tab, backtick, tilde, a}: same verdict and same fence run"""
+    import ast
+    import inspect
+    import re
+    from flowmark.linewrapping import tag_handling as TH
+    tree = ast.parse(inspect.getsource(TH.preprocess_tag_block_spacing))
+    pats = [c.args[0].value for c in ast.walk(tree) if isinstance(c, ast.Call) and ast.unparse(c.func) in ("re.match", "re.compile")
+            and c.args and isinstance(c.args[0], ast.Constant) and isinstance(c.args[0].value, str)]
+    if len(pats) != 1:
+        viol.append({"clause": "fence_opener_as_commonmark", "input": {"patterns": pats}, "got": "expected exactly one regex literal in preprocess_tag_block_spacing"})
+        return 1
+    rx = re.compile(pats[0])
+    n = 0
+    for s in _strings([" ", "\t", "`", "~", "a"], 7):
+        m = rx.match(s)
+        k = len(s) - len(s.lstrip(" "))
+        rest = s[k:]
+        run = re.match(r"`{3,}|~{3,}", rest)
+        want = run.group(0) if (k <= 3 and run) else None
+        got = m.group(1) if m else None
+        n += 1
+        if got != want:
+            viol.append({"clause": "fence_opener_as_commonmark", "input": {"line": s, "pattern": pats[0]}, "got": got, "want": want})
+            if len(viol) > 10:
+                break
+    return n
